@@ -1,10 +1,20 @@
 #!/bin/sh
-# authoring tool: all 20 checks on the cached facts of the clean tree; prints only failures
+# authoring tool: all 20 checks on the cached facts of the clean tree; prints only failures, and compares the set of
+# obligation keys (rule/instance) with regress_keys.txt so that an edit that silently drops an obligation is noticed
+# (./regress.sh --update rewrites the list after a deliberate change)
 cd /verif
 bad=0
+facts=/tmp/cleanfacts
+tmp=$(mktemp)
 for i in 01 02 03 04 05 06 07 08 09 10 11 12 13 14 15 16 17 18 19 20; do
-  out=$(GMV_NO_EVIDENCE=1 ./check C$i --facts ${1:-/tmp/cleanfacts} 2>&1)
+  out=$(GMV_NO_EVIDENCE=1 GMV_LIST=all ./check C$i --facts $facts 2>&1)
   if [ $? -ne 0 ]; then bad=1; echo "$out" | grep -E "VIOLATED|LOST|Trace|Error|^C" | head -5; fi
+  echo "$out" | sed -n 's/^  \[[A-Z-]*\] \([^ ]*\): .*/C'$i' \1/p' | sort -u >> $tmp
 done
-[ $bad -eq 0 ] && echo "regress: all 20 pass"
+if [ "$1" = "--update" ]; then cp $tmp regress_keys.txt; echo "regress: key list updated ($(wc -l < regress_keys.txt) keys)"; fi
+if ! diff -q $tmp regress_keys.txt >/dev/null 2>&1; then
+  echo "regress: obligation keys differ from regress_keys.txt:"; diff regress_keys.txt $tmp | head -20; bad=1
+fi
+rm -f $tmp
+[ $bad -eq 0 ] && echo "regress: all 20 pass, $(wc -l < regress_keys.txt) obligation keys unchanged"
 exit $bad
